@@ -60,7 +60,8 @@ def shrink(lines, failing, keep=1, budget=400):
     return cur
 
 
-def handle(ctx, lines, oracle, diffs, origin, theorem, sub="api"):
+def handle(ctx, lines, oracle, diffs, origin, theorem, sub="api", sigfun=None):
+    signature = sigfun or globals()["signature"]
     if oracle:
         sig = signature(oracle[0])
 
@@ -69,7 +70,7 @@ def handle(ctx, lines, oracle, diffs, origin, theorem, sub="api"):
             return any(signature(x) == sig for x in o)
         small = shrink(lines, failing) if failing(lines) else lines
         o, _ = replay(ctx, small, sub=sub)
-        msg = (o or oracle)[0]
+        msg = next((x for x in o if signature(x) == sig), oracle[0])
         C.add_violation(ctx, sig, msg[:600],
                         "# %s violation found by the abstract-tree oracle on the implementation (%s)\n# %s\n# replay: harness %s --replay <this file> --ops o --impl i\n%s\n" % (ctx.pid, origin, msg[:2000], sub, "\n".join(small)))
     elif diffs:
@@ -86,14 +87,19 @@ def handle(ctx, lines, oracle, diffs, origin, theorem, sub="api"):
                                   "theorem": theorem})
 
 
-def campaign(ctx, args, tag, theorem, sub="api", max_report=5):
-    """Run one generated campaign; returns (stat, hist, sample)."""
+def campaign(ctx, args, tag, theorem, sub="api", max_report=5, accept=None, sigfun=None):
+    """Run one generated campaign; returns (stat, hist, sample).  `accept(msg)` selects the oracle
+    messages this property owns; `sigfun(msg)` overrides the signature."""
+    signature = sigfun or globals()["signature"]
     ops, imp, mod = ctx.path(tag + ".ops"), ctx.path(tag + ".impl"), ctx.path(tag + ".model")
     rc, out = C.harness([sub] + args + ["--ops", ops, "--impl", imp])
     if rc != 0:
         ctx.undischarged.append("harness %s campaign (%s) crashed: %s" % (sub, tag, out[-300:]))
         return {}, {}, []
     stat, hist, oracle = C.parse_stats(out)
+    all_oracle = oracle
+    if accept is not None:
+        oracle = [m for m in oracle if accept(m)]
     C.driver([sub], ops, mod)
     diffs = C.diff_lines(imp, mod)
     ops_lines = open(ops).read().splitlines()
@@ -108,7 +114,7 @@ def campaign(ctx, args, tag, theorem, sub="api", max_report=5):
             continue
         done.add(idx)
         sigs.add(sg)
-        handle(ctx, hs[idx][1], [msg], [], "%s history %d" % (tag, idx), theorem, sub=sub)
+        handle(ctx, hs[idx][1], [msg], [], "%s history %d" % (tag, idx), theorem, sub=sub, sigfun=sigfun)
         if len(sigs) >= max_report:
             break
     seen = set()
@@ -119,18 +125,18 @@ def campaign(ctx, args, tag, theorem, sub="api", max_report=5):
         if idx < 0 or idx in seen or idx in done:
             continue
         # histories the oracle flagged (any) are reported as violations, not disagreements
-        if any(re.match(r"history %d " % idx, m) for m in oracle):
+        if any(re.match(r"history %d " % idx, m) for m in all_oracle):
             continue
         seen.add(idx)
         start, lines = hs[idx]
-        handle(ctx, lines[: ln - start + 1], [], [(ln - start, a, b)], "%s history %d" % (tag, idx), theorem, sub=sub)
+        handle(ctx, lines[: ln - start + 1], [], [(ln - start, a, b)], "%s history %d" % (tag, idx), theorem, sub=sub, sigfun=sigfun)
         if len(seen) >= max_report:
             break
     sample = hs[min(2, len(hs) - 1)][1][:14] if hs else []
     return stat, hist, sample
 
 
-def corpus(ctx, theorem, sub="api", ext=".api"):
+def corpus(ctx, theorem, sub="api", ext=".api", accept=None, sigfun=None):
     cdir = os.path.join(C.VERIF, "corpus", ctx.pid)
     n = ops = 0
     if os.path.isdir(cdir):
@@ -139,7 +145,9 @@ def corpus(ctx, theorem, sub="api", ext=".api"):
                 continue
             lines = [l for l in open(os.path.join(cdir, name)).read().splitlines() if l and not l.startswith("#")]
             o, d = replay(ctx, lines, tag="corpus", sub=sub)
-            handle(ctx, lines, o, d, "corpus/" + name, theorem, sub=sub)
+            if accept is not None:
+                o = [m for m in o if accept(m)]
+            handle(ctx, lines, o, d, "corpus/" + name, theorem, sub=sub, sigfun=sigfun)
             n += 1
             ops += len(lines)
     return n, ops
